@@ -159,6 +159,28 @@ def parse_out(line):
     return r
 
 
+_NONFIN = {'nan', '7ff0000000000000', 'fff0000000000000'}
+
+
+def oracle_nonfinite(events):
+    """Did a *problem* oracle return a non-finite value in this run (NaN injection, overflow of a
+    diverging run)?  C03's finiteness clause presupposes finite problem functions (DESIGN §6 C03,
+    `x_out_finite_partial`): a NaN / inf gradient is copied into x̂ by construction."""
+    return any(e[0] in _ARGSHAPE and _NONFIN.intersection(e[1:]) for e in events)
+
+
+def c03_monitor(op_line, out_line):
+    """`checks/c03.py: monitor` applied to a PANTR run."""
+    import c03
+    if out_line.startswith('S exception'):
+        return None
+    m = c03.monitor(op_line, to_c03_view(out_line), {})
+    if m and 'not finite' in (m if isinstance(m, str) else m[0]) and \
+            oracle_nonfinite(parse_out(out_line)['events']):
+        return None
+    return m
+
+
 def to_c03_view(line):
     """Re-shape a PANTR output line so that `checks/c03.py: monitor` (PANOC field layout) reads it:
     only status, the O section and the presence of callbacks matter there."""
@@ -185,6 +207,86 @@ def to_c03_view(line):
         else:
             out.append(s)
     return ' ; '.join(out)
+
+
+def pantr_monitor(op_line, out_line):
+    """C05 / C06 / C19 restated operationally on the real solver's outputs (independent of the
+    model): status / count / ε relations, accept ⇒ ρ ≥ threshold and x⁺ = x̂ + q, reject ⇒ x⁺ = x̂,
+    γ non-increasing with γ·L constant, Δ ≥ min_radius, at most one iteration after `stop()`."""
+    if out_line.startswith('S exception'):
+        return None
+    op = S.Op.parse(op_line)
+    r = parse_out(out_line)
+    st = r['stats']
+    cbs = r['cbs']
+    if not cbs:
+        if st['status'] != 'NotFinite' or st['iterations'] != 0 or not r['out']['untouched']:
+            return f'early return with status {st["status"]}, iterations {st["iterations"]}'
+        return None
+    last = cbs[-1]
+    maxiter = op.nat('maxiter')
+    tol = op.flt('tol', 1e-8)
+    tol = tol if tol > 0 else 1e-8
+    # ---- C06
+    if st['iterations'] > maxiter:
+        return f'C06: iterations {st["iterations"]} > max_iter {maxiter}'
+    if (st['status'] == 'Converged') != (st['eps'] <= tol):
+        return f'C06: status {st["status"]} but eps={st["eps"]!r}, tolerance {tol!r}'
+    if last['status'] != st['status'] or f2h(last['eps']) != f2h(st['eps']) or last['k'] != st['iterations']:
+        return 'C06: final callback disagrees with Stats'
+    if st['status'] == 'MaxIter' and st['iterations'] != maxiter:
+        return 'C06: MaxIter with iterations != max_iter'
+    if st['status'] == 'NotFinite' and math.isfinite(st['eps']):
+        return 'C06: NotFinite with finite eps'
+    if st['status'] == 'MaxTime' and not op.nat('oot'):
+        return 'C06: MaxTime without time limit'
+    if st['status'] in ('NoProgress', 'Busy', 'Exception'):
+        return f'C06: PANTR returned {st["status"]}'
+    stoptick = next((int(e[1]) for e in r['events'] if e[0] == 'stoptick'), 0)
+    if st['status'] == 'Interrupted' and not stoptick:
+        return 'C06/C19: Interrupted without a stop request'
+    # ---- C19: iterations after the request
+    if stoptick:
+        # Busy callbacks whose event index is below the stop tick = iterations begun before it
+        tick = 0
+        busy_before = 0
+        for e in r['events']:
+            if e[0] == 'stoptick':
+                continue
+            tick += 1
+            if e[0] == 'cb' and tick < stoptick:
+                busy_before += 1
+        if st['iterations'] > busy_before + 1:
+            return (f'C19: stop() at event {stoptick} (after {busy_before} completed callbacks) but the '
+                    f'solve ran to iteration {st["iterations"]}')
+        if r['ticks'] > stoptick and st['status'] not in ('Interrupted', 'Converged', 'MaxIter', 'MaxTime',
+                                                            'NotFinite'):
+            return f'C19: status {st["status"]} after stop()'
+    # ---- C05
+    thr = op.flt('thracc', 0.2)
+    minrad = op.flt('minrad', 100 * EPS)
+    g0L0 = None
+    for a, b in zip(cbs, cbs[1:]):
+        if a['status'] != 'Busy':
+            return 'callback after the final one'
+        acc = a['tau'] == 1.0
+        if acc and not (a['rho'] >= thr):
+            return f'C05: candidate accepted at k={a["k"]} with rho={a["rho"]!r} < threshold {thr!r}'
+        if not acc and a['rho'] >= thr and False:
+            pass
+        want = [xh + q for xh, q in zip(a['xhat'], a['q'])] if acc else a['xhat']
+        if [f2h(v) for v in want] != [f2h(v) for v in b['x']]:
+            return (f'C05: iterate {b["k"]} is not ' + ('x̂+q' if acc else 'x̂ (forward-backward step)') +
+                    f' of iterate {a["k"]}')
+        if not (b['gamma'] <= a['gamma']) and not (math.isnan(a['gamma']) or math.isnan(b['gamma'])):
+            return f'C05: step size increased at k={b["k"]}: {a["gamma"]!r} -> {b["gamma"]!r}'
+        pa, pb = a['gamma'] * a['L'], b['gamma'] * b['L']
+        if math.isfinite(pa) and math.isfinite(pb) and pa != pb and \
+                min(a['gamma'], b['gamma']) > 1e-290 and max(a['L'], b['L']) < 1e290:
+            return f'C05: gamma*L changed at k={b["k"]}: {pa!r} -> {pb!r}'
+        if minrad == minrad and not (a['Delta'] >= minrad):
+            return f'C05: trust radius {a["Delta"]!r} < min_radius {minrad!r} at k={a["k"]}'
+    return None
 
 
 # ------------------------------------------------------------------ replay comparison
@@ -301,11 +403,12 @@ def selftest(argv=()):
     ok = ps['ok']
     for b in ps['broken']:
         print('BROKEN:', b[:400])
+    print(f'[loop_pantr] proof stage: obligations={rep.cov["obligations"]} discharged={rep.cov["discharged"]} '
+          f'axioms={rep.cov.get("axioms_used")}')
     exe, log = build_harness()
     if exe is None:
         print('BROKEN: harness does not build:', log[-1500:])
         return 1
-    import c03
     n, nsweep = (250, 3) if tier == 'quick' else (1500, 12)
     total = bad = exc = nonp = 0
     cov = collections.Counter()
@@ -320,19 +423,68 @@ def selftest(argv=()):
         status.update(r['status'])
         cov.update(coverage(ops, r['hout']))
         for o, h in zip(ops, r['hout']):
-            if h.startswith('S exception'):
-                continue
-            m = c03.monitor(o, to_c03_view(h), {})
+            m = c03_monitor(o, h) or pantr_monitor(o, h)
             if m:
                 viol.append((m, o))
         print(f'[loop_pantr] seed {seed}: runs={r["n"]} mismatches={r["bad"]} exceptions={r["exceptions"]}')
     print('[loop_pantr] status', dict(status))
     print('[loop_pantr] coverage', dict(sorted(cov.items())))
     print(f'[loop_pantr] total runs={total} mismatches={bad} provider-exceptions={exc} nonpure-skipped={nonp} '
-          f'C03-monitor hits={len(viol)}')
+          f'monitor hits={len(viol)}')
     for m, o in viol[:3]:
-        print('C03 MONITOR:', m, '\n   op:', o[:2000])
+        print('MONITOR:', m, '\n   op:', o[:2000])
     return 0 if (ok and bad == 0 and not viol) else 1
+
+
+def mutcheck(seed=1, N=400, nsweep=3):
+    """Mutation-test helper (run with VERIF_REPO=<private mutated copy>): which mechanism notices?
+    Does *not* rewrite lean/Alpaqa/Gen (other agents build concurrently): the translators write to
+    a temporary file that is compared with the generated kernels the proofs were checked against."""
+    import subprocess
+    import tempfile
+    verdict = []
+    for g, tgt in (('gen_c05.py', 'C05.lean'), ('gen_c06.py', 'C06.lean')):
+        with tempfile.NamedTemporaryFile(suffix='.lean', delete=False) as tf:
+            tmp = tf.name
+        r = subprocess.run([sys.executable, os.path.join(C.VERIF, 'gen', g), tmp],
+                           env=dict(os.environ, VERIF_REPO=C.REPO), capture_output=True, text=True)
+        cur = open(os.path.join(C.LEAN, 'Alpaqa', 'Gen', tgt)).read()
+        new = open(tmp).read() if os.path.exists(tmp) else ''
+        os.unlink(tmp)
+        if r.returncode != 0:
+            verdict.append(f'translator {g}: region no longer translatable ({r.stdout.strip()[-200:]})')
+        elif new != cur:
+            import difflib
+            d = [l for l in difflib.unified_diff(cur.splitlines(), new.splitlines(), lineterm='', n=0)
+                 if l[:1] in '+-' and l[:3] not in ('+++', '---')]
+            verdict.append(f'translator {g}: regenerated kernels differ from the proved ones: ' + ' | '.join(d)[:600])
+    exe, log = build_harness()
+    if exe is None:
+        print('MUTANT: harness does not build'); print(log[-800:]); return 1
+    rng = random.Random(seed * 1000003 + 7)
+    ops = [gen_run(rng).line() for _ in range(N)] + sweep_ops(rng, exe, nsweep)
+    r = replay(ops, exe, show=0)
+    if r['bad']:
+        m = r['mismatches'][0]
+        verdict.append(f'trace replay: {r["bad"]}/{r["n"]} runs differ from the model; first: section '
+                       f'{m[2] if len(m) > 2 else ""}: real {str(m[3])[:160] if len(m) > 3 else m} / model '
+                       f'{str(m[4])[:160] if len(m) > 4 else ""}')
+    hits = collections.Counter()
+    first = {}
+    for o, h in zip(ops, r['hout']):
+        for name, mon in (('c03.monitor', c03_monitor), ('pantr_monitor', pantr_monitor)):
+            m = mon(o, h)
+            if m:
+                hits[name] += 1
+                first.setdefault(name, str(m)[:200])
+    for k, v in hits.items():
+        verdict.append(f'{k}: {v} hits; first: {first[k]}')
+    print(f'[mutcheck] repo={C.REPO} runs={r["n"]}')
+    for v in verdict:
+        print('  CAUGHT BY', v)
+    if not verdict:
+        print('  NOT CAUGHT')
+    return 0 if verdict else 1
 
 
 def dev(seed, N):
@@ -347,7 +499,9 @@ def dev(seed, N):
 
 
 if __name__ == '__main__':
-    if len(sys.argv) > 1 and sys.argv[1] == 'dev':
+    if len(sys.argv) > 1 and sys.argv[1] == 'mutcheck':
+        sys.exit(mutcheck())
+    elif len(sys.argv) > 1 and sys.argv[1] == 'dev':
         dev(int(sys.argv[2]) if len(sys.argv) > 2 else 1, int(sys.argv[3]) if len(sys.argv) > 3 else 50)
     else:
         sys.exit(selftest(sys.argv))
